@@ -45,3 +45,11 @@ Definition run_zextreme (mx : bool) (ctx : option Z) (l : list zv) : Z :=
   | [] => -1
   | b :: r => zindex (extreme mx (imp_of ctx) b r) (b :: r) 0
   end.
+
+(* ---- component extraction (Components.v) ---- *)
+From EP Require Import Gen.C11Components C11.Components.
+(* (the six components by the code, by the F&O definition) *)
+Definition run_dur (months us : Z) := (dur_impl months us, dur_spec months us).
+(* [year; month; day; hours; minutes; seconds in microseconds] of a value, through its timeline offset *)
+Definition run_dtc (y m d tod : Z) : list Z := dt_components y m d tod.
+Definition run_secs (second micro : Z) : list Z := [seconds_impl second micro; seconds_old second micro].
